@@ -181,6 +181,9 @@ INSERTS = {
     "CertificateRequest10": (22, wire.hs_msg(13, b"\x01\x01\x00\x00")),
     "appdata": (23, b"early data"),
     "appdata_empty": (23, b""),
+    # a heartbeat request although the extension was not negotiated (the
+    # deviant's own settings have it switched off for this run)
+    "heartbeat": (24, b"\x01\x00\x04abcd" + b"\x00" * 16),
     "EndOfEarlyData": (22, wire.hs_msg(5, b"")),
 }
 
@@ -190,7 +193,8 @@ TOKNAME = {"CertificateRequest10": "CertificateRequest",
            "NewSessionTicket12": "NewSessionTicket", "NewSessionTicket13": "NewSessionTicket",
            "EmptyCertificate": "Certificate(empty)",
            "EmptyCertificate13": "Certificate(empty)",
-           "appdata": "app", "appdata_empty": "app", "Finished12": "Finished(bad)",
+           "appdata": "app", "appdata_empty": "app", "heartbeat": "hb",
+           "Finished12": "Finished(bad)",
            "Finished32": "Finished(bad)"}
 
 
@@ -208,6 +212,12 @@ def deviations(n, thorough):
                      "KeyUpdate", "EmptyCertificate"):
             out.append(("replace", i, name))
         out.append(("straddle", i))
+        if i == n - 1:
+            # after the adversary's last handshake message, i.e. once the
+            # handshake is over (sent just before its first application data)
+            for name in ("ccs", "HelloRequest", "Finished32", "ServerHelloDone",
+                         "EmptyCertificate13", "appdata_empty"):
+                out.append(("append", i, name))
         if thorough:
             for j in range(n):
                 if j not in (i, i + 1) and abs(i - j) <= 4:
@@ -224,6 +234,7 @@ class Rewriter(object):
         self.held = {}
         self.hon_log = hon_log or []
         self.dev = None        # the adv.Deviant, set by run_dev
+        self.appended = None
 
     def __call__(self, i, t, msg, raw):
         out = [msg]
@@ -276,6 +287,12 @@ class Rewriter(object):
                     else:
                         out = [adv.Raw(22, b"", "frag-mismatch")]
                     touched = True
+            elif k == "append" and d[1] == i:
+                ct, b = INSERTS[d[2]]
+                self.dev.after.append(adv.Raw(ct, b, TOKNAME.get(d[2])))
+                self.appended = TOKNAME.get(d[2], d[2])
+                out = [msg]
+                touched = True
             elif k == "insert" and d[1] == i:
                 ct, b = INSERTS[d[2]]
                 out = [adv.Raw(ct, b, TOKNAME.get(d[2]))] + out
@@ -293,6 +310,10 @@ def run_dev(sc, label, role, devs, hon_log=None):
 
     def tweak(p, fl):
         conn = p.c if role == "client" else p.s
+        if devs and any(x[0] in ("insert", "replace") and x[2] == "heartbeat"
+                        for x in devs):
+            (fl.cset if role == "client" else
+             fl.sset).use_heartbeat_extension = False
         rw = Rewriter(devs, hon_log) if devs else None
         holder["d"] = adv.Deviant(conn, rw)
         if rw is not None:
@@ -346,10 +367,13 @@ def make_cases(ctx):
                 rng.shuffle(devs)
 
                 def always(x):
-                    if x[0] in ("skip", "dup", "swap", "straddle"):
+                    if x[0] in ("skip", "dup", "swap", "straddle", "append"):
                         return True
                     # an unsolicited CertificateRequest where the key
                     # exchange has no place for one
+                    if x[0] == "insert" and x[2] == "heartbeat" and \
+                            x[1] in (1, len(toks) - 1):
+                        return True
                     return x[0] == "insert" and x[2] == (
                         "CertificateRequest12" if sc.ver >= (3, 3) else
                         "CertificateRequest10") \
@@ -490,17 +514,21 @@ def run_case(ctx, cid, P):
     ctx.ev()
     ctx.count("runs")
     seq = list(d.emitted)
+    if d.rewrite is not None and getattr(d.rewrite, "appended", None) and \
+            not d.after:
+        seq.append(d.rewrite.appended)     # it went out after the handshake
     k, post = split_language(seq, hon_seq, role, sc.ver)
     legal = k is not None
     vt = R.ts if role == "client" else R.tc
     v_hs = R.s_hs if role == "client" else R.c_hs
     v_data = R.s_data if role == "client" else R.c_data
-    dclass = "+".join(x[0] + (":" + x[2] if x[0] in ("insert", "replace")
+    dclass = "+".join(x[0] + (":" + x[2] if x[0] in ("insert", "replace",
+                                                     "append")
                               else "") for x in devs)
     fam = "tls13" if sc.ver == (3, 4) else ("ssl3" if sc.ver == (3, 0)
                                             else "le12")
     def what(x):
-        if x[0] in ("insert", "replace"):
+        if x[0] in ("insert", "replace", "append"):
             return TOKNAME.get(x[2], x[2])
         return tname(hon_seq[x[1]]) if x[1] < len(hon_seq) else None
     key = {"victim": vrole, "fam": fam, "dev": dclass,
